@@ -101,12 +101,15 @@ def rule_a(ctx, idx, A):
         lambda n: n.meta.get("attr") == A.flag and self_attr(n.ast, sn) and isinstance(n.meta.get("value"), ast.Constant) and n.meta["value"].value is True,
     )
     con = "%s::store-result-then-flag" % fi.key
+    sf_any = False
     for e in execs:
         if e not in cfg.reachable():
             continue
         ok1 = cfg.must_pass_through(e, cfg.exit, good)
-        ok2 = all(cfg.must_pass_through(m, cfg.exit, flag_true) for m in good) and bool(good)
-        ok3 = all(cfg.must_pass_through(cfg.entry, f, good) for f in flag_true)
+        sf_ = bool(flag_true) and all(K.success_flag_ok(cfg, fi, f, good) for f in flag_true)  # `if succeeded: flag = True` in a finally block
+        sf_any = sf_any or sf_
+        ok2 = (all(cfg.must_pass_through(m, cfg.exit, flag_true) for m in good) and bool(good)) or sf_
+        ok3 = all(cfg.must_pass_through(cfg.entry, f, good) or K.success_flag_ok(cfg, fi, f, good) for f in flag_true)
         ok4 = bool(flag_true)
         if ok1 and ok2 and ok3 and ok4:
             ctx.hold("C01.a", con, file, e.line, "every normal path after execute stores its value in %s and then sets %s" % (A.memo, A.flag))
@@ -121,7 +124,7 @@ def rule_a(ctx, idx, A):
             if not ok4:
                 why.append("`%s` is never set true" % A.flag)
             ctx.violate("C01.a", con, file, e.line, "; ".join(why))
-    if ctx.tier == "thorough":
+    if ctx.tier == "thorough" and not sf_any:  # (the enumeration does not follow the value of a local success flag)
         # second, independent decision by explicit path enumeration
         paths = cfg.paths(loop_bound=2)
         ctx.count("paths_enumerated", len(paths))
@@ -432,7 +435,10 @@ def rule_f(ctx, idx, A):
     fi = A.program_run
     res = coverage.start_coverage(idx, A)
     con = "%s::start-coverage" % fi.key
-    if res.kind == "unfiltered":
+    comp_ = coverage.complementary_starts(A)
+    if comp_ is not None and res.kind != "unfiltered":
+        ctx.hold("C01.f", con, K.rel(fi), comp_[0], comp_[1])
+    elif res.kind == "unfiltered":
         ctx.hold("C01.f", con, K.rel(fi), res.line, "unfiltered loop over the command table starts every command: %s" % res.text)
     elif res.kind == "filtered-ok":
         # exact bookkeeping is not enough: a recorded consumer executes its producer only if it reads that input, which
